@@ -568,7 +568,7 @@ class C23(core.Check):
     PROPS = 'props/C23.v'
     MODEL_IMPORTS = ['gen.Gen_clear', 'model.ClearChain']
     QUICK_CASES = 130
-    THOROUGH_CASES = 1500
+    THOROUGH_CASES = 4000
     TRUSTED = ['table extractor translate/targets/gen_clear.py (AST -> guarded operation lists); meaning of the '
                'table strings (prim_call / prim_assign) and hand model of preserve_commons / gather_commons in '
                'model/ClearChain.v, tied by exact correspondence of the whole post-state; program loading, '
@@ -800,6 +800,9 @@ class C23(core.Check):
             hist[k] = hist.get(k, 0) + 1
             if c.get('near'):
                 hist['near:' + c['near']] = hist.get('near:' + c['near'], 0) + 1
+                r = self.run_case(c)
+                o = 'not reached' if r['pre'] is None else ('done' if r['exc'] is None else 'error %s' % r['exc'][1])
+                hist['near outcome: ' + o] = hist.get('near outcome: ' + o, 0) + 1
         self.histogram = hist
         return out
 
